@@ -203,6 +203,7 @@ func (e *Environment) MakeRegister(originalName string, v int64) Register {
 	if !e.HasRegisters() {
 		panic(fmt.Sprintf("No more registers available for %s (%d) have %v", originalName, v, e.registers))
 	}
+	e.noteRebind(originalName, Integer{Value: v}) // (the name may be the one of a top level function, until the loop ends)
 	e.registers[e.numReg] = v
 	e.regNames[e.numReg] = originalName
 	tok := token.Intern(token.REGISTER, originalName)
